@@ -421,7 +421,7 @@ fn suite_undeclared(g: &Gram, out: &mut Out, rng: &mut Rng) {
             if in_block { ws.extend([(5 << 16) | 54, 9001, 9002, 0, 9003, (2 << 16) | 248, 9004]); }
             ws.extend(inst.encode());
             if in_block { ws.extend([(1 << 16) | 253, (1 << 16) | 56]); }
-            out.ev(json!({"ev": "rawload", "tag": "raw-undeclared", "layout": !in_block, "in_words": jws(&ws), "in_version": jw(ws[1]), "in_bound": jw(ws[3]),
+            out.ev(json!({"ev": "rawload", "tag": "raw-undeclared", "layout": !(in_block && is_structural(op)), "in_words": jws(&ws), "in_version": jw(ws[1]), "in_bound": jw(ws[3]),
                           "words": load_words_event(&ws)}));
         }
     }
